@@ -183,7 +183,8 @@ func rsCase(r *lib.Run, idx int) {
 			return e
 		},
 		"recover-unequal-shard-sizes": func() error {
-			if total < 2 {
+			if total < 2 || len(orig[0]) < 2 { // a shard truncated to zero length counts as missing, which is legal
+
 				return fmt.Errorf("n/a")
 			}
 			s := make([][]byte, total)
@@ -406,7 +407,8 @@ func paddingAndWireCase(r *lib.Run, idx int) {
 		r.Count("unpad_hostile_buffers", 1)
 		switch {
 		case pn != nil:
-			c.viol("unpad-panic:"+name+":"+pn.kind(), "UnpadMessage panicked on a hostile buffer: "+pn.Value, map[string]any{"buffer": hexShort(b), "panic": pn})
+			c.viol("unpad-panic:"+name+":"+pn.kind(), "UnpadMessage panicked on a hostile buffer: "+pn.Value,
+				map[string]any{"buffer": hexShort(b), "panic": pn, "reachable_through_ConstructMessageFromUnits_if_publisher_signs_it": signedPayloadPanics(rng, b)})
 		case name == "length-exact" && (err != nil || !bytes.Equal(out, []byte{9, 9})):
 			c.viol("padding-roundtrip-wrong", "UnpadMessage({2,9,9}) wrong", nil)
 		case name != "length-exact" && err == nil:
@@ -414,6 +416,45 @@ func paddingAndWireCase(r *lib.Run, idx int) {
 		}
 	}
 	hostileWire(c, rng)
+}
+
+// signedPayloadPanics: a (Byzantine) publisher erasure-codes, commits and signs the
+// given padded payload with the exported building blocks; does a receiver that
+// holds all its units panic in ConstructMessageFromUnits? Only used to annotate
+// the witness of an UnpadMessage panic.
+func signedPayloadPanics(rng *rand.Rand, padded []byte) string {
+	const d, p = 2, 1
+	buf := append([]byte(nil), padded...)
+	for len(buf)%(2*d) != 0 {
+		buf = append(buf, 0)
+	}
+	priv, pubID := genKey(rng)
+	var cid propeller.CommitteeID
+	res := "not-built"
+	pn := safe(func() {
+		shards, err := reedsolomon.EncodeData(buf, d, p)
+		if err != nil {
+			return
+		}
+		root, tree := merkle.New(shards)
+		mr := propeller.MessageRoot(root)
+		sig, err := propeller.SignMessage(priv, &mr, &cid, 1)
+		if err != nil {
+			return
+		}
+		units := make([]*propeller.Unit, len(shards))
+		for i := range shards {
+			units[i] = &propeller.Unit{CommitteeID: cid, Publisher: pubID, MessageRoot: mr, MerkleProof: tree[i], Signature: sig,
+				ShardIndex: propeller.ShardIndex(i), ShardData: propeller.ShardData{shards[i]}, Nonce: 1}
+		}
+		res = "built"
+		_, _, _, err = propeller.ConstructMessageFromUnits(units, 0, d, p)
+		res = fmt.Sprintf("no panic (err=%v)", err)
+	})
+	if pn != nil {
+		return "yes (" + res + "): " + pn.Value
+	}
+	return res
 }
 
 // field-by-field comparison of a unit with its decoded wire form
@@ -551,9 +592,18 @@ func hostileWire(c *caseCtx, rng *rand.Rand) {
 		c.r.Count("hostile_wire_units", 1)
 		c.r.Count("hostile_wire_shapes/"+sh.name, 1)
 		if pn != nil {
-			c.viol("wire-decode-panic:"+sh.name,
+			// class from the shape of the decoded message + the kind of panic (root cause), not from the recipe name
+			cl := "wire-decode-panic:" + sh.name + ":" + pn.kind()
+			switch {
+			case len(u.GetShards().GetShards()) == 0 && pn.kind() == "index-out-of-range":
+				cl = "wire-decode-panic:no-shards"
+			case len(u.GetMerkleRoot().GetElements()) < 32 && pn.kind() == "slice-to-array-conversion":
+				cl = "wire-decode-panic:merkle-root-shorter-than-32-bytes"
+			}
+			c.viol(cl,
 				fmt.Sprintf("UnitFromProto panics on a well-formed protobuf unit with %s (called without recover from the stream handler): %s", sh.name, pn.Value),
-				map[string]any{"shape": sh.name, "panic": pn, "wire_hex": hexShort(raw)})
+				map[string]any{"shape": sh.name, "shards": len(u.GetShards().GetShards()), "merkle_root_len": len(u.GetMerkleRoot().GetElements()),
+					"panic": pn, "wire_hex": hexShort(raw)})
 			continue
 		}
 		if derr != nil {
